@@ -41,6 +41,7 @@ package pq
 
 //@ func (*PriorityQueue).lessThan
 //@   props C16 C08
+//@   replay pq_merge
 //@   requires pq.comp != nil && i != nil && j != nil
 //@   ensures [strictly-less] r0 <==> cmpv(pq.comp, val(i.key), val(j.key)) < 0
 //@   modifies nothing
@@ -52,3 +53,54 @@ package pq
 //@   ensures [kv] r0 == nil ==> item.key === inKey(item.iterator, old(inPos(item.iterator))) && item.value === inVal(item.iterator, old(inPos(item.iterator)))
 //@   ensures [step] inPos(item.iterator) == old(inPos(item.iterator)) + 1
 //@   modifies inPos(item.iterator), item.key, item.value
+
+// pqShape(q): slot 0 is reserved, slots 1..size hold elements with live inputs.
+//@ spec func pqShape(q *PriorityQueue) Bool = q.comp != nil && 0 <= q.size && len(q.heap) == q.size + 1 &&
+//@      (forall c Int :: 1 <= c && c <= q.size ==> q.heap[c] != nil && q.heap[c].iterator != nil)
+
+//@ func (*PriorityQueue).swap
+//@   props C16
+//@   requires 0 <= i && i < len(pq.heap) && 0 <= j && j < len(pq.heap) && pq.heap[i] != nil && pq.heap[j] != nil
+//@   ensures pq.heap[i] == old(pq.heap[j]) && pq.heap[j] == old(pq.heap[i])
+//@   ensures forall c Int :: 0 <= c && c < len(pq.heap) && c != i && c != j ==> pq.heap[c] == old(pq.heap[c])
+//@   modifies pq.heap[*], old(pq.heap[i]).heapIndex, old(pq.heap[j]).heapIndex
+//@   safety on
+
+//@ func (*PriorityQueue).downHeap
+//@   props C16
+//@   requires [shape] pqShape(pq)
+//@   ensures [shape-kept] pqShape(pq) && pq.size == old(pq.size) && pq.heap === old(pq.heap)
+//@   modifies pq.heap[*]
+//@   safety on
+//@   loop 0
+//@     invariant 1 <= i && i <= pq.size && 2 <= j && element != nil && element.iterator != nil
+//@     invariant pq.size == old(pq.size) && pq.heap === old(pq.heap) && len(pq.heap) == pq.size + 1 && pq.comp != nil
+//@     invariant forall c Int :: 1 <= c && c <= pq.size ==> pq.heap[c] != nil && pq.heap[c].iterator != nil
+
+//@ func (*PriorityQueue).upHeap
+//@   props C16
+//@   requires [shape] pqShape(pq) && 1 <= i && i <= pq.size
+//@   ensures [shape-kept] pqShape(pq) && pq.size == old(pq.size) && pq.heap === old(pq.heap)
+//@   modifies pq.heap[*]
+//@   safety on
+//@   loop 0
+//@     invariant 1 <= i && i <= pq.size && 0 <= j && j < i && element != nil && element.iterator != nil
+//@     invariant pq.size == old(pq.size) && pq.heap === old(pq.heap) && len(pq.heap) == pq.size + 1 && pq.comp != nil
+//@     invariant forall c Int :: 1 <= c && c <= pq.size ==> pq.heap[c] != nil && pq.heap[c].iterator != nil
+
+//@ func (*PriorityQueue).Next
+//@   props C16 C11 C08
+//@   replay pq_merge
+//@   requires [shape] pqShape(pq)
+//@   ensures [shape-kept] pqShape(pq)
+//@   ensures [done-when-empty] old(pq.size) == 0 ==> err == Done
+//@   ensures [returns-root] old(pq.size) > 0 && err == nil ==> r0 === old(pq.heap[1].key) && r1 === old(pq.heap[1].value) && r2 == inCtx(old(pq.heap[1].iterator))
+//@   ensures [input-error-reported] old(pq.size) > 0 && inErr(old(pq.heap[1].iterator), old(inPos(pq.heap[1].iterator))) != nil &&
+//@           !errIs(inErr(old(pq.heap[1].iterator), old(inPos(pq.heap[1].iterator))), Done) ==>
+//@           err != nil && errIs(err, inErr(old(pq.heap[1].iterator), old(inPos(pq.heap[1].iterator)))) && err != Done
+//@   ensures [exhausted-input-leaves] old(pq.size) > 0 && errIs(inErr(old(pq.heap[1].iterator), old(inPos(pq.heap[1].iterator))), Done) ==>
+//@           err == nil && pq.size == old(pq.size) - 1
+//@   ensures [live-input-stays] old(pq.size) > 0 && inErr(old(pq.heap[1].iterator), old(inPos(pq.heap[1].iterator))) == nil ==>
+//@           err == nil && pq.size == old(pq.size)
+//@   ensures [refills-from-the-same-input] old(pq.size) > 0 ==> inPos(old(pq.heap[1].iterator)) == old(inPos(pq.heap[1].iterator)) + 1
+//@   safety on
